@@ -27,6 +27,31 @@ theorem seelab_rotation_width (a : Arg) (h : acceptsShape [3, 3] a = true) : enc
 theorem seelab_vec2_width (a : Arg) (h : acceptsShape [2] a = true) : encodedLen 8 a = 16 := by
   rw [accepted_well_sized 8 [2] a h]; rfl
 
+/-- constructors with several geometry arguments: accepted exactly when EVERY argument is an array of
+    its own required shape — a wrong argument is never excused by another argument that is "wrong in
+    the same way" -/
+theorem all_iff_each (reqs : List (List Nat)) (args : List Arg) :
+    acceptsAll reqs args = true ↔ args = reqs.map Arg.ndarray := by
+  induction reqs generalizing args with
+  | nil => cases args <;> simp [acceptsAll]
+  | cons r rs ih =>
+    cases args with
+    | nil => simp [acceptsAll]
+    | cons a as =>
+      simp only [acceptsAll, Bool.and_eq_true, ih, accept_iff_shape, List.map_cons, List.cons.injEq]
+
+theorem all_well_sized (w : Nat) (reqs : List (List Nat)) (args : List Arg) (h : acceptsAll reqs args = true) :
+    (args.map (encodedLen w)).sum = (reqs.map (fun r => w * r.foldl (· * ·) 1)).sum := by
+  rw [(all_iff_each reqs args).mp h, List.map_map]; rfl
+
+/-- the geometry of a 3D / force-torque / calibration block always occupies 12 + 36 + 12 bytes -/
+theorem geometry_width (v r t : Arg) (h : acceptsAll [[3], [3, 3], [3]] [v, r, t] = true) :
+    encodedLen 4 v + encodedLen 4 r + encodedLen 4 t = 60 := by
+  have := all_well_sized 4 _ _ h
+  simpa [List.sum_cons, Nat.add_assoc] using this
+
+example : acceptsAll [[3], [3, 3], [3]] [.ndarray [2], .ndarray [3, 2], .ndarray [3]] = false := by decide
+
 /-- a viewport half given as a two-element list, tuple or array is accepted — and nothing else — and
     always encodes to 8 bytes -/
 theorem viewport_half (a : Arg) :
